@@ -50,8 +50,8 @@ type C19Plan struct {
 	Losses    []string `json:"losses,omitempty"` // idle | inflight | between-phases
 	// RegLoss k > 0: the connection dies while the RegisterRM request of the k-th
 	// resource is in flight (the client has the resource, the coordinator not yet)
-	RegLoss int `json:"reg_loss,omitempty"`
-	Tape      []int    `json:"tape"`
+	RegLoss int   `json:"reg_loss,omitempty"`
+	Tape    []int `json:"tape"`
 }
 
 func genC19(seed uint64, tier, mode string) *C19Plan {
